@@ -7,7 +7,7 @@ HOOK_COMMITS = subprocess.run(["git","-C","/repo","log","--format=%h %s","--grep
 CLAIMED = {
  "C11": dict(
    technique="runtime monitoring: reference-model monitor + algebraic-law monitor over exhaustive pool sweep and seeded random operand tuples",
-   text="Every operator method of the real value package is executed on every ordered pair of a boundary-value pool (exhaustive) and on seeded random tuples; each result is compared with an independent model of the README tables and with reference-free algebraic laws (symmetry, negation, relational consistency, slice/concat length laws). Held-on-what-was-observed; the pool sweeps are complete, the random part is a sample.",
+   text="Every operator method of the real value package is executed on every ordered pair of a boundary-value pool (exhaustive) and on seeded random tuples; each result is compared with an independent model of the README tables and with reference-free algebraic laws (symmetry, negation, relational consistency, slice/concat length laws). The same pool pairs are also run through compiled programs (operands injected as globals) in the plain opcode form and in the temp-register form of every operator. Held-on-what-was-observed; the pool sweeps are complete, the random part is a sample.",
    note="Trusts the harness model (harness/val) as the statement of the README tables; unspecified cells only demand 'documented error or right-shaped value, no crash'. Go's IEEE-754 float semantics trusted.",
    design="6/C11"),
  "C01": dict(
